@@ -205,9 +205,9 @@ def harness(n, edges, mode, nsteps):
             ids, dag, it = make_world_kinds(n, edges, log, int(mode[5:]))
         else:
             ids, dag, it = make_world(n, edges, log, requests)
-        if mode in ("dyn1", "dyn2"):
-            # dynamic harness: all guards true in step 0 (a statement that does
-            # not execute cannot request anything; guards are covered by 'static')
+        if mode == "dyn2":
+            # two-request harness: all guards true in step 0 (guards x one
+            # request are covered by 'dyn1', guards alone by 'static')
             for i in ids:
                 ex.assume(z3.Bool("guard_%s_step0" % i))
         it.set_up(t_start=0, dt_start=1, context={})
@@ -465,7 +465,7 @@ def main(tier, seed):
         "stub: ExecutionPhase.depends_on (a raw set comprehension) is re-wrapped in a ranked set so that the sink order is symbolic too",
         "iteration orders are those expressible as one global rank over statement ids",
         "steps are not cut short (the recording target never raises); failures/switches are covered by C01/C11",
-        "dynamic harness: all guards true (a statement that does not execute cannot request); guards are covered by the static harness",
+        "one-request harness: guards symbolic as well (a skipped statement must count as visited when it is requested later); two-request harness: all guards true",
     ]
     return run.finish(
         rule="every DAG on N statements with edges i->j, j<i, per mode (static N<=%d, one request N<=%d, two requests N<=%d); "
